@@ -222,15 +222,21 @@ def stmts(ctx, body, k):
         if isinstance(tgt, ast.Name):
             # local: cid = UbxCID(a, b)  /  packet = (cid, self.msg_data)  /  crc_error_message = (self.crc_error_cid, None) / val = ...
             if isinstance(val, ast.Call) and dotted(val.func) == 'UbxCID' and len(val.args) == 2:
-                ctx.locals[tgt.id] = f'({expr(ctx, val.args[0])}, {expr(ctx, val.args[1])})'
+                v = f'({expr(ctx, val.args[0])}, {expr(ctx, val.args[1])})'
+                ctx.n_let = getattr(ctx, 'n_let', 0) + 1
+                name = f'v__{tgt.id}_{ctx.n_let}'
+                ctx.locals[tgt.id] = name
                 ctx.locals[tgt.id + '#kind'] = 'cid'
-                return stmts(ctx, rest, k)
+                return f'(let {name} := {v} in\n   {stmts(ctx, rest, k)})'
             if isinstance(val, ast.Tuple) and len(val.elts) == 2:
                 a, b = val.elts
                 da, db = dotted(a), dotted(b)
                 if da in ctx.locals and ctx.locals.get(da + '#kind') == 'cid' and db and db.startswith('self.') and ctx.attrs.get(db[5:], (0, 0))[1] == 'bytes':
-                    ctx.locals[tgt.id] = f'(Pkt (fst {ctx.locals[da]}) (snd {ctx.locals[da]}) {expr(ctx, b, "bytes")})'
-                    return stmts(ctx, rest, k)
+                    v = f'(Pkt (fst {ctx.locals[da]}) (snd {ctx.locals[da]}) {expr(ctx, b, "bytes")})'
+                    ctx.n_let = getattr(ctx, 'n_let', 0) + 1
+                    name = f'v__{tgt.id}_{ctx.n_let}'
+                    ctx.locals[tgt.id] = name
+                    return f'(let {name} := {v} in\n   {stmts(ctx, rest, k)})'
                 if da == 'self.crc_error_cid' and isinstance(b, ast.Constant) and b.value is None:
                     ctx.locals[tgt.id] = 'CrcErr'
                     return stmts(ctx, rest, k)
@@ -239,8 +245,12 @@ def stmts(ctx, body, k):
                 ctx.locals[tgt.id] = f'(g_to_bin {expr(ctx, val.args[0])})'
                 ctx.locals[tgt.id + '#kind'] = 'optN'
                 return stmts(ctx, rest, k)
-            ctx.locals[tgt.id] = expr(ctx, val)
-            return stmts(ctx, rest, k)
+            # bound with a Coq `let`: the value is that of the state at THIS point, later updates of the state must not reach it
+            v = expr(ctx, val)
+            ctx.n_let = getattr(ctx, 'n_let', 0) + 1
+            name = f'v__{tgt.id}_{ctx.n_let}'
+            ctx.locals[tgt.id] = name
+            return f'(let {name} := {v} in\n   {stmts(ctx, rest, k)})'
         err(st, f'assignment target {ast.dump(tgt)[:60]} not supported')
     if isinstance(st, ast.For) and not st.orelse and isinstance(st.target, ast.Name):
         # for d in self.<bytes attr>: self.<obj>.<update>(d)
